@@ -302,8 +302,9 @@ class C10:
             B = [("sub", conv[0], ("const", i)) for i in range(4)]
             nyq = ("bin", "/", ("attr", ("attr", se, "recording"), "samplerate"), ("const", 2))
             wants = {"onset": B[0], "offset": B[2], "low_freq": B[1], "high_freq": ("call", ("builtin", "min"), (B[3], nyq), ())}
+            from sa.idioms import norm_minmax
             for k, w in wants.items():
-                if canon(kw.get(k, NONE)) == canon(w):
+                if canon(norm_minmax(kw.get(k, NONE))) == canon(norm_minmax(w)):
                     ctx.ok("R10.2", site, f"{k} = {show(w)[:50]}")
                 else:
                     ctx.bad("R10.2", file, "bbox_from_annotation", f"{k}={show(kw.get(k, NONE))[:60]}",
@@ -344,14 +345,21 @@ class C10:
             inh = [e for e in s.events if hid in e.in_handler]
             cont = [e for e in inh if e.kind == "continue"]
             rer = [e for e in inh if e.kind == "raise"]
-            good = (len(cont) == 1 and ig in conjuncts(cont[0].live) and len(rer) == 1 and NOT(ig) in conjuncts(rer[0].live))
+            # the handler re-raises exactly when ignore_errors is off; when it is on the element is skipped: the handler
+            # either continues or falls through to code that runs only after a successful conversion
+            falls = s.tries[tid].falls.get(hid, FALSE)
+            skip_ok = (len(cont) == 1 and ig in conjuncts(cont[0].live) and falls == FALSE) or \
+                      (not cont and falls != FALSE and ig in conjuncts(falls))
+            other = [e for e in inh if e.kind in ("store", "return", "break", "yield")]
+            good = skip_ok and len(rer) == 1 and NOT(ig) in conjuncts(rer[0].live) and not other
             if good:
                 ctx.ok("R10.4", f"{file}:{c.lineno} {fname}", "except ValueError: continue iff ignore_errors, else re-raise")
             else:
                 ctx.bad("R10.4", file, fname, f"handler: continue under {[show(e.live)[-40:] for e in cont]}, raise under {[show(e.live)[-40:] for e in rer]}",
                         "on an unconvertible event the loop must skip it iff ignore_errors and re-raise otherwise", c.lineno)
             apps = [e for e in s.calls if e.term[1][0] == "attr" and e.term[1][2] == "append" and L.id in e.loops and not e.in_handler]
-            if len(apps) == 1 and not apps[0].in_handler and not apps[0].handlers:
+            success_only = apps and (falls == FALSE or ("completed", tid) in conjuncts(apps[0].live))
+            if len(apps) == 1 and not apps[0].in_handler and not apps[0].handlers and success_only:
                 ctx.ok("R10.4", f"{file}:{apps[0].lineno} {fname}", "one append per converted element, outside the handler")
             else:
                 ctx.bad("R10.4", file, fname, f"{len(apps)} appends", "exactly one append per successfully converted element, outside the try/except", c.lineno)
@@ -541,7 +549,8 @@ class C10:
                         f"label_from_tag, scenario `{name}`: returns {[show(o)[:80] for o in outs]} but the documented cascade gives {wtxt}",
                         s.node.lineno, witness={"scenario": name})
         # label_from_tags
-        s2 = ctx.summ.of_func(LAB, "label_from_tags")
+        from sa.sym import normalise_find_first
+        s2 = normalise_find_first(ctx.summ.of_func(LAB, "label_from_tags"))
         site = f"{file}:{s2.node.lineno} label_from_tags"
         Q = {p: ("param", p) for p in s2.params}
         tags = Q["tags"]
